@@ -5,7 +5,7 @@ From Coq Require Import ZifyBool ZifyN ZifyNat.
 From FF Require Import Lib.Word Gen.Consts_device_acpi_aml Gen.Consts_aml_tree Aml.Stream Aml.Lex
   Aml.Tree Aml.TreeSpec Aml.TreeProofs Aml.Parser Aml.Grammar
   Aml.ParserTotalBase Aml.ParserFragBase Aml.ParserFragFirst Aml.ParserFragF0 Aml.ParserFragF0Conn Aml.ParserFragF0Top
-  Aml.ParserFragRose Aml.ParserFragF1 Aml.ParserFragF1First Aml.ParserFragF1Conn Aml.ParserFragF1Top
+  Aml.ParserFragRose Aml.ParserFragDev Aml.ParserFragArgs Aml.ParserFragF1 Aml.ParserFragF1First Aml.ParserFragF1Conn Aml.ParserFragF1Top
   Aml.View Aml.ParserFragView Aml.ParserFragF0View.
 Import ListNotations.
 Local Open Scope N_scope.
@@ -14,74 +14,85 @@ Ltac Zify.zify_post_hook ::= Z.div_mod_to_equations.
 
 Definition name_entry (p : path) (d : decl) : list N :=
   [1] ++ tok_path (p ++ [d_seg d]) ++ [aml_pOpName] ++ const_tokens (d_op d) (const_val (d_op d) (d_v d)).
-Definition dev_entry (p : path) : list N := [1] ++ tok_path p ++ [aml_pOpDevice].
-Definition meth_entry (p : path) (fl : N) : list N := [1] ++ tok_path p ++ [aml_pOpMethod] ++ tok_const OP_BYTE fl.
+Definition blk_entry (p : path) (bk : bkind) (l : fxs) : list N :=
+  [1] ++ tok_path p ++ [bk_op bk] ++ flat_map (fun '(w, v) => tok_const (fw_op w) v) l.
+Definition dev_entry (p : path) : list N := blk_entry p BDev [].
+Definition meth_entry (p : path) (fl : N) : list N := blk_entry p BMeth [(W1, fl)].
 
-(** the view lists the body of a Device before the Device *)
+(** the view lists the body of a block before the block *)
 Fixpoint ventry (p : path) (it : item) : list (list N) :=
   match it with
   | IName d => [name_entry p d]
-  | IDev _ seg body => flat_map (ventry (p ++ [seg])) body ++ [dev_entry (p ++ [seg])]
-  | IMeth _ seg fl body => flat_map (ventry (p ++ [seg])) body ++ [meth_entry (p ++ [seg]) fl]
+  | IBlk bk _ seg fa body => flat_map (ventry (p ++ [seg])) body ++ [blk_entry (p ++ [seg]) bk (bfx bk fa)]
   end.
 Definition ventries (p : path) (l : list item) : list (list N) := flat_map (ventry p) l.
 
-(** the specification lists the Device first *)
+(** the specification lists the block first *)
 Fixpoint sentry (p : path) (it : item) : list (list N) :=
   match it with
   | IName d => [name_entry p d]
-  | IDev _ seg body => dev_entry (p ++ [seg]) :: flat_map (sentry (p ++ [seg])) body
-  | IMeth _ seg fl body => meth_entry (p ++ [seg]) fl :: flat_map (sentry (p ++ [seg])) body
+  | IBlk bk _ seg fa body => blk_entry (p ++ [seg]) bk (bfx bk fa) :: flat_map (sentry (p ++ [seg])) body
   end.
 Definition sentries (p : path) (l : list item) : list (list N) := flat_map (sentry p) l.
 
 Lemma ventries_perm : forall l p, Permutation (ventries p l) (sentries p l).
 Proof.
-  induction l as [|d rest IH|k seg body rest IHb IH|k seg fl body rest IHb IH] using items_ind; intros p; [constructor| | |].
+  induction l as [|d rest IH|bk k seg fa body rest IHb IH] using items_ind; intros p; [constructor| |].
   - cbn [ventries sentries flat_map ventry sentry]. apply Permutation_app_head. apply IH.
   - cbn [ventries sentries flat_map ventry sentry]. apply Permutation_app; [|apply IH].
     fold (ventries (p ++ [seg]) body). fold (sentries (p ++ [seg]) body).
     eapply Permutation_trans; [apply Permutation_app_comm|]. cbn [app]. constructor. apply IHb.
-  - cbn [ventries sentries flat_map ventry sentry]. apply Permutation_app; [|apply IH].
-    fold (ventries (p ++ [seg]) body). fold (sentries (p ++ [seg]) body).
-    eapply Permutation_trans; [apply Permutation_app_comm|]. cbn [app]. constructor. apply IHb.
 Qed.
 
-(** ---- a Device node ---- *)
-Lemma walkF_block (t : T) tables f known p es stmts c co pth sb ko es' :
-  obj t c = Some co -> o_opcode co = aml_pOpDevice -> View.kids t co = [pth; sb] ->
-  obj t sb = Some ko -> o_opcode ko = aml_pOpIntScopeBlock ->
-  walk t tables f known sb (p ++ [name_num (o_name co)]) = (es', []) ->
-  walkF t tables f known p (es, stmts) c = (es ++ es' ++ [dev_entry (p ++ [name_num (o_name co)])], stmts).
+(** ---- the arguments of a named object, one by one ---- *)
+Definition argF (t : T) (tables : list (list N)) (f : nat) (known : list path) (op : N) (p' argScope : path)
+  (a : list (list N) * list N) (k : N) : list (list N) * list N :=
+  let '(sub, args) := a in
+  match obj t k with
+  | Some ko =>
+      if o_opcode ko =? aml_pOpIntScopeBlock then
+        let '(es', st') := walk t tables f known k p' in
+        if op =? aml_pOpMethod then (sub ++ es', args ++ concat st')
+        else (sub ++ es' ++ anon p' st', args)
+      else (sub, args ++ renderExpr t tables (pool_fuel t) known argScope k)
+  | None => (sub ++ [bad], args)
+  end.
+
+Definition fx_obj (t : T) (k : N) (wv : fw * N) : Prop :=
+  exists ko, obj t k = Some ko /\ o_opcode ko = fw_op (fst wv) /\ View.kids t ko = [] /\ o_value ko = Some (VNum (snd wv)).
+
+Lemma argF_fx (t : T) tables f known op p' sc : forall ks (l : fxs) sub args, Forall2 (fx_obj t) ks l ->
+  fold_left (argF t tables f known op p' sc) ks (sub, args) = (sub, args ++ flat_map (fun '(w, v) => tok_const (fw_op w) v) l).
 Proof.
-  intros Ho Hop Hk Hko Hopk Hw. unfold walkF. rewrite Ho. cbv zeta. rewrite Hop.
-  change ((aml_pOpDevice =? aml_pOpIntScopeBlock) && negb (is_zero_scopeblock co)) with false. cbv iota.
-  change (aml_pOpDevice =? aml_pOpIntNamedField) with false. change (is_declop aml_pOpDevice) with true. cbv iota.
-  rewrite Hk. cbn [fold_left]. rewrite Hko, Hopk. change (aml_pOpIntScopeBlock =? aml_pOpIntScopeBlock) with true. cbv iota.
-  rewrite Hw. change (aml_pOpDevice =? aml_pOpMethod) with false. cbv iota.
-  cbn [anon map app]. rewrite !app_nil_r. unfold dev_entry. reflexivity.
+  induction ks as [|k ks IH]; intros l sub args HF; inversion HF as [|k0 [w v] ks0 l0 Hk Hr]; subst; cbn [fold_left flat_map]; [rewrite app_nil_r; reflexivity|].
+  destruct Hk as (ko & Hko & Hop & Hkk & Hv). cbn [fst snd] in Hop, Hv.
+  unfold argF at 2. rewrite Hko, Hop.
+  assert (E : fw_op w =? aml_pOpIntScopeBlock = false) by (destruct w; reflexivity). rewrite E.
+  unfold pool_fuel. rewrite (render_const t tables _ known sc k ko Hko Hkk); rewrite ?Hop; try (destruct w; reflexivity).
+  2:{ rewrite Hv. exact I. }
+  rewrite Hv. rewrite (IH l0 sub _ Hr). rewrite <- app_assoc. reflexivity.
 Qed.
 
-(** ---- a Method node ---- *)
-Lemma walkF_meth (t : T) tables f known p es stmts c co pth byt kb sb ko es' :
-  obj t c = Some co -> o_opcode co = aml_pOpMethod -> View.kids t co = [pth; byt; sb] ->
-  obj t byt = Some kb -> o_opcode kb = aml_pOpBytePrefix -> View.kids t kb = [] ->
-  match o_value kb with Some (VNum _) => True | _ => False end ->
+(** ---- a block-like named object ---- *)
+Lemma walkF_blk (t : T) tables f known p es stmts c co bk pth fxi (l : fxs) sb ko es' :
+  obj t c = Some co -> o_opcode co = bk_op bk -> View.kids t co = pth :: fxi ++ [sb] ->
+  Forall2 (fx_obj t) fxi l ->
   obj t sb = Some ko -> o_opcode ko = aml_pOpIntScopeBlock ->
   walk t tables f known sb (p ++ [name_num (o_name co)]) = (es', []) ->
-  walkF t tables f known p (es, stmts) c =
-  (es ++ es' ++ [[1] ++ tok_path (p ++ [name_num (o_name co)]) ++ [aml_pOpMethod] ++ const_tokens aml_pOpBytePrefix (o_value kb)], stmts).
+  walkF t tables f known p (es, stmts) c = (es ++ es' ++ [blk_entry (p ++ [name_num (o_name co)]) bk l], stmts).
 Proof.
-  intros Ho Hop Hk Hkb Hopb Hkkb Hvb Hko Hopk Hw. unfold walkF. rewrite Ho. cbv zeta. rewrite Hop.
-  change ((aml_pOpMethod =? aml_pOpIntScopeBlock) && negb (is_zero_scopeblock co)) with false. cbv iota.
-  change (aml_pOpMethod =? aml_pOpIntNamedField) with false. change (is_declop aml_pOpMethod) with true. cbv iota.
-  rewrite Hk. cbn [fold_left]. rewrite Hkb, Hopb. change (aml_pOpBytePrefix =? aml_pOpIntScopeBlock) with false. cbv iota.
-  rewrite Hko, Hopk. change (aml_pOpIntScopeBlock =? aml_pOpIntScopeBlock) with true. cbv iota.
-  rewrite Hw. change (aml_pOpMethod =? aml_pOpMethod) with true. cbv iota.
-  unfold pool_fuel.
-  rewrite (render_const t tables _ known _ byt kb Hkb Hkkb); rewrite ?Hopb; try reflexivity.
-  2:{ destruct (o_value kb) as [[x|tb sl|i|fe]|]; try contradiction; exact I. }
-  cbn [concat app]. rewrite !app_nil_r. reflexivity.
+  intros Ho Hop Hk HF Hko Hopk Hw. unfold walkF. rewrite Ho. cbv zeta. rewrite Hop.
+  assert (E1 : (bk_op bk =? aml_pOpIntScopeBlock) && negb (is_zero_scopeblock co) = false) by (destruct bk; reflexivity).
+  assert (E2 : bk_op bk =? aml_pOpIntNamedField = false) by (destruct bk; reflexivity).
+  assert (E3 : is_declop (bk_op bk) = true) by (destruct bk; reflexivity).
+  rewrite E1, E2, E3. rewrite Hk.
+  set (p' := p ++ [name_num (o_name co)]).
+  change (fold_left _ (fxi ++ [sb]) ([], [])) with
+    (fold_left (argF t tables f known (bk_op bk) p' (if bk_op bk =? aml_pOpMethod then p' else p)) (fxi ++ [sb]) ([], [])).
+  rewrite fold_left_app, (argF_fx t tables f known _ p' _ fxi l [] [] HF). cbn [fold_left app].
+  unfold argF. rewrite Hko, Hopk. change (aml_pOpIntScopeBlock =? aml_pOpIntScopeBlock) with true. cbv iota.
+  fold p' in Hw. rewrite Hw. unfold blk_entry.
+  destruct (bk_op bk =? aml_pOpMethod); cbn [anon map concat app]; rewrite ?app_nil_r; reflexivity.
 Qed.
 
 Section ViewF1.
@@ -101,6 +112,15 @@ Proof.
   rewrite (walkF_empty_scope t tables f known p acc c co Ho Hop Hnm Hk). apply IH. intros c' Hc'. apply Hall. right. exact Hc'.
 Qed.
 
+Lemma fx_view : forall (l : fxs) b off, Forall (Desc g pl) (leaf_row b (fx_pays 1 off l)) -> Forall2 (fx_obj t) (seqN b (length l)) l.
+Proof.
+  induction l as [|[w v] r IH]; intros b off HD; [constructor|]. cbn [fx_pays leaf_row length seqN] in HD |- *.
+  constructor; [|apply (IH _ _ (Forall_inv_tail HD))].
+  destruct (Desc_inv _ _ _ _ _ (Forall_inv HD)) as (Pb & Kb & _). cbn [map] in Kb.
+  destruct (view_obj t g pl b _ H Pb ltac:(destruct w; discriminate)) as (ko & Hko & Epko & Hkko).
+  exists ko. split; [exact Hko|]. split; [rewrite (pay_op _ _ Epko); reflexivity|]. split; [rewrite Hkko; exact Kb|rewrite (pay_val _ _ Epko); reflexivity].
+Qed.
+
 Definition VSpec (its : list item) : Prop := forall f known p es st b off,
   Forall (Desc g pl) (lay2 1 0 b off its) -> forallb item_okb its = true -> (iszs its < f)%nat ->
   fold_left (walkF t tables f known p) (map ridx (lay2 1 0 b off its)) (es, st) = (es ++ ventries p its, st).
@@ -114,7 +134,7 @@ Qed.
 
 Lemma vspec_all : forall its, VSpec its.
 Proof.
-  induction its as [|d rest IH|k seg body rest IHb IH|k seg fl body rest IHb IH] using items_ind; intros f known p es st b off HD Hok Hf.
+  induction its as [|d rest IH|bk k seg fa body rest IHb IH] using items_ind; intros f known p es st b off HD Hok Hf.
   - cbn [lay2 map fold_left ventries flat_map]. rewrite app_nil_r. reflexivity.
   - apply forallb_item_cons in Hok. destruct Hok as [Hd Hok]. cbn [item_okb] in Hd. apply andb_prop in Hd. destruct Hd as [Hd Hseg].
     apply N.ltb_lt in Hseg. unfold decl_okb in Hd. apply andb_prop in Hd. destruct Hd as [Hd _]. apply andb_prop in Hd. destruct Hd as [_ Hc].
@@ -135,42 +155,28 @@ Proof.
     cbn [ventries flat_map ventry]. rewrite <- app_assoc. cbn [app]. f_equal. f_equal. f_equal.
     unfold name_entry. rewrite Hopk, Hvk, (pay_name _ _ Epco). cbn [nam_pay y_name]. rewrite (name_num_seg _ Hseg). reflexivity.
   - apply forallb_item_cons in Hok. destruct Hok as [Hd Hok]. cbn [item_okb] in Hd. apply andb_prop in Hd. destruct Hd as [Hx Hbody].
-    apply andb_prop in Hx. destruct Hx as [Hx _]. apply andb_prop in Hx. destruct Hx as [_ Hseg]. apply N.ltb_lt in Hseg.
+    apply andb_prop in Hx. destruct Hx as [Hx _]. apply andb_prop in Hx. destruct Hx as [Hx _]. apply andb_prop in Hx. destruct Hx as [Hx _].
+    apply andb_prop in Hx. destruct Hx as [_ Hseg]. apply N.ltb_lt in Hseg.
     rewrite lay2_cons in HD |- *. rewrite map_app, fold_left_app. apply Forall_app in HD. destruct HD as [HDit HDrest].
-    rewrite lay2_dev in HDit |- *. cbn [map ridx fold_left].
-    pose proof (Forall_inv HDit) as DD. destruct (Desc_inv _ _ _ _ _ DD) as (PD & KD & HDk). cbn [map ridx] in KD.
-    pose proof (Forall_inv (Forall_inv_tail HDk)) as DS. destruct (Desc_inv _ _ _ _ _ DS) as (PS & KS & HDbody).
-    destruct (view_obj t g pl b _ H PD ltac:(discriminate)) as (co & Hco & Epco & Hkco).
-    destruct (view_obj t g pl (b + 2) _ H PS ltac:(discriminate)) as (ko & Hko & Epko & Hkko).
+    rewrite lay2_blk in HDit |- *. cbn [map ridx fold_left].
+    set (l := bfx bk fa) in *. set (nf := length l) in *. unfold nfx in *. fold l nf in HDit |- *.
+    pose proof (Forall_inv HDit) as DD. destruct (Desc_inv _ _ _ _ _ DD) as (PD & KD & HDk).
+    rewrite map_app, leaf_row_idx, len_hd_pays in KD. fold l nf in KD. cbn [map ridx seqN app] in KD.
+    apply Forall_app in HDk. destruct HDk as [HDrow HDsb]. pose proof (Forall_inv HDsb) as DS.
+    destruct (Desc_inv _ _ _ _ _ DS) as (PS & KS & HDbody).
+    unfold hd_pays in HDrow. cbn [leaf_row] in HDrow. fold l in HDrow.
+    pose proof (fx_view l _ _ (Forall_inv_tail HDrow)) as HF. fold nf in HF.
+    destruct (view_obj t g pl b _ H PD ltac:(destruct bk; discriminate)) as (co & Hco & Epco & Hkco).
+    destruct (view_obj t g pl (b + 2 + N.of_nat nf) _ H PS ltac:(discriminate)) as (ko & Hko & Epko & Hkko).
     rewrite KD in Hkco. rewrite KS in Hkko.
-    rewrite iszs_cons, isz_dev in Hf. destruct f as [|f']; [lia|].
-    assert (Hnm : name_num (o_name co) = seg) by (rewrite (pay_name _ _ Epco); cbn [dev_pay y_name]; apply name_num_seg; exact Hseg).
-    assert (Hw : walk t tables (S f') known (b + 2) (p ++ [name_num (o_name co)]) = (ventries (p ++ [seg]) body, [])).
+    rewrite iszs_cons, isz_blk in Hf. fold l nf in Hf. destruct f as [|f']; [lia|].
+    assert (Hnm : name_num (o_name co) = seg) by (rewrite (pay_name _ _ Epco); cbn [blk_pay y_name]; apply name_num_seg; exact Hseg).
+    assert (Hw : walk t tables (S f') known (b + 2 + N.of_nat nf) (p ++ [name_num (o_name co)]) = (ventries (p ++ [seg]) body, [])).
     { rewrite walk_S, Hko, Hkko, Hnm. rewrite (IHb f' known (p ++ [seg]) [] [] _ _ HDbody Hbody ltac:(lia)). reflexivity. }
-    rewrite (walkF_block t tables (S f') known p es st b co (b + 1) (b + 2) ko _ Hco ltac:(rewrite (pay_op _ _ Epco); reflexivity) Hkco Hko
-               ltac:(rewrite (pay_op _ _ Epko); reflexivity) Hw).
+    rewrite (walkF_blk t tables (S f') known p es st b co bk (b + 1) (seqN (b + 1 + 1) nf) l (b + 2 + N.of_nat nf) ko _ Hco
+               ltac:(rewrite (pay_op _ _ Epco); reflexivity) Hkco HF Hko ltac:(rewrite (pay_op _ _ Epko); reflexivity) Hw).
     rewrite (IH (S f') known p _ st _ _ HDrest Hok ltac:(lia)).
-    cbn [ventries flat_map ventry]. fold (ventries (p ++ [seg]) body). rewrite Hnm, <- !app_assoc. reflexivity.
-  - apply forallb_item_cons in Hok. destruct Hok as [Hd Hok]. cbn [item_okb] in Hd. apply andb_prop in Hd. destruct Hd as [Hx Hbody].
-    apply andb_prop in Hx. destruct Hx as [Hx _]. apply andb_prop in Hx. destruct Hx as [Hx _]. apply andb_prop in Hx. destruct Hx as [_ Hseg]. apply N.ltb_lt in Hseg.
-    rewrite lay2_cons in HD |- *. rewrite map_app, fold_left_app. apply Forall_app in HD. destruct HD as [HDit HDrest].
-    rewrite lay2_meth in HDit |- *. cbn [map ridx fold_left].
-    pose proof (Forall_inv HDit) as DD. destruct (Desc_inv _ _ _ _ _ DD) as (PD & KD & HDk). cbn [map ridx] in KD.
-    pose proof (Forall_inv (Forall_inv_tail HDk)) as DB. destruct (Desc_inv _ _ _ _ _ DB) as (PB & KB & _). cbn [map] in KB.
-    pose proof (Forall_inv (Forall_inv_tail (Forall_inv_tail HDk))) as DS. destruct (Desc_inv _ _ _ _ _ DS) as (PS & KS & HDbody).
-    destruct (view_obj t g pl b _ H PD ltac:(discriminate)) as (co & Hco & Epco & Hkco).
-    destruct (view_obj t g pl (b + 2) _ H PB ltac:(discriminate)) as (kb & Hkb & Epkb & Hkkb).
-    destruct (view_obj t g pl (b + 3) _ H PS ltac:(discriminate)) as (ko & Hko & Epko & Hkko).
-    rewrite KD in Hkco. rewrite KB in Hkkb. rewrite KS in Hkko.
-    rewrite iszs_cons, isz_meth in Hf. destruct f as [|f']; [lia|].
-    assert (Hnm : name_num (o_name co) = seg) by (rewrite (pay_name _ _ Epco); cbn [mth_pay y_name]; apply name_num_seg; exact Hseg).
-    assert (Hw : walk t tables (S f') known (b + 3) (p ++ [name_num (o_name co)]) = (ventries (p ++ [seg]) body, [])).
-    { rewrite walk_S, Hko, Hkko, Hnm. rewrite (IHb f' known (p ++ [seg]) [] [] _ _ HDbody Hbody ltac:(lia)). reflexivity. }
-    assert (Hvb : o_value kb = Some (VNum fl)) by (rewrite (pay_val _ _ Epkb); reflexivity).
-    rewrite (walkF_meth t tables (S f') known p es st b co (b + 1) (b + 2) kb (b + 3) ko _ Hco ltac:(rewrite (pay_op _ _ Epco); reflexivity) Hkco Hkb
-               ltac:(rewrite (pay_op _ _ Epkb); reflexivity) Hkkb ltac:(rewrite Hvb; exact I) Hko ltac:(rewrite (pay_op _ _ Epko); reflexivity) Hw).
-    rewrite (IH (S f') known p _ st _ _ HDrest Hok ltac:(lia)).
-    cbn [ventries flat_map ventry]. fold (ventries (p ++ [seg]) body). rewrite Hnm, Hvb, <- !app_assoc. reflexivity.
+    cbn [ventries flat_map ventry]. fold (ventries (p ++ [seg]) body). fold l. rewrite Hnm, <- !app_assoc. reflexivity.
 Qed.
 
 (** ---- the whole view ---- *)
